@@ -461,10 +461,16 @@ impl Node {
         }
     }
 
+    /// The connection to `node_name`, cloned out of the table so that no reference into the map
+    /// is held across an await (the receiver task removes the entry when the connection ends).
+    fn connection_handle(&self, node_name: &str) -> Option<Arc<Mutex<Connection>>> {
+        self.connections.get(node_name).map(|c| c.value().clone())
+    }
+
     async fn send_remote(&self, to: &ExternalPid, message: OwnedTerm) -> Result<()> {
         let node_name = to.node.as_str();
 
-        if let Some(conn) = self.connections.get(node_name) {
+        if let Some(conn) = self.connection_handle(node_name) {
             let from = self
                 .pid_allocator
                 .allocate()
@@ -490,7 +496,7 @@ impl Node {
         } else {
             let node_name = to.node.as_str();
 
-            if let Some(conn) = self.connections.get(node_name) {
+            if let Some(conn) = self.connection_handle(node_name) {
                 let mut conn_guard = conn.lock().await;
                 conn_guard.link(from, to).await?;
                 Ok(())
@@ -513,7 +519,7 @@ impl Node {
         } else {
             let node_name = to.node.as_str();
 
-            if let Some(conn) = self.connections.get(node_name) {
+            if let Some(conn) = self.connection_handle(node_name) {
                 let unlink_id = self.reference_counter.fetch_add(1, Ordering::SeqCst) as u64;
                 let mut conn_guard = conn.lock().await;
                 conn_guard.unlink(from, to, unlink_id).await?;
@@ -554,7 +560,7 @@ impl Node {
         } else {
             let node_name = to.node.as_str();
 
-            if let Some(conn) = self.connections.get(node_name) {
+            if let Some(conn) = self.connection_handle(node_name) {
                 let mut conn_guard = conn.lock().await;
                 conn_guard.monitor(from, to, &reference).await?;
                 Ok(reference)
@@ -578,7 +584,7 @@ impl Node {
         } else {
             let node_name = to.node.as_str();
 
-            if let Some(conn) = self.connections.get(node_name) {
+            if let Some(conn) = self.connection_handle(node_name) {
                 let mut conn_guard = conn.lock().await;
                 conn_guard.demonitor(from, to, reference).await?;
                 Ok(())
